@@ -149,8 +149,10 @@ def obligations(tier):
                 obs.append(Ob('remove/b2/n2/s%d/r%d/s%d' % (s1, r1, s2), h_remove, f, need=('nonempty',),
                               budget=900, bounds='n=2, 2 apply steps', kinds=KINDS))
     for s1 in range(2):
+        obs.append(Ob('remove3/ansistr/n3/s%d' % s1, h_remove3, dict(n=3, s1=s1, r1=2, cls=1), need=('removed3',), budget=900,
+                      bounds='n=3, 3 apply steps over (red, blue), AnsiStr.remove_formatting, canonical ranges, 4 selections', kinds=KINDS))
         for r1 in (2, 4, 5) if tier == 'quick' else range(6):
-            obs.append(Ob('remove3/n3/s%d/r%d' % (s1, r1), h_remove3, dict(n=3, s1=s1, r1=r1), need=('removed3', 'equal-instances'), budget=900,
+            obs.append(Ob('remove3/n3/s%d/r%d' % (s1, r1), h_remove3, dict(n=3, s1=s1, r1=r1, cls=0), need=('removed3', 'equal-instances'), budget=900,
                           bounds='n=3, 3 apply steps over (red, blue) incl. equal-valued instances, canonical removal ranges, selections None/red/blue/[red,bold], AnsiString and AnsiStr', kinds=KINDS))
     obs.append(Ob('clear/b2/n2', h_clear, dict(n=2, k=2), need=('cleared',), budget=300, bounds='n=2', kinds=KINDS))
     if tier == 'quick':
